@@ -179,6 +179,9 @@ def build_model(cfg, therm, temperature_via='setter'):
                 sE.setEigenstrain(se['eigenstrain'])
                 pp.strainEnergy = sE
                 pp.validate()
+        if p in (cfg.get('calcAR') or []):
+            # aspect ratio from the balance of strain and interfacial energy (needs an elastic strain energy and a needle/plate shape)
+            pp.calculateAspectRatio = True
         if 'infDiff' in cfg:
             pp.infinitePrecipitateDiffusion = bool(cfg['infDiff'].get(p, True)) if isinstance(cfg['infDiff'], dict) else bool(cfg['infDiff'])
         if 'Rmin' in cfg:
